@@ -400,6 +400,7 @@ def run_bandit(case, driver):
     taught = []           # the rewards the wrapped learner was taught (after the Misguided wrappers)
     mirror = UcbMirror() if lt == "ucb" else None
     mhist = []            # the history as the model sees it
+    fidx = {}             # model call -> (index into the offered list, the implementation's float) for the float-faithful pmf
     cmp = []              # (index into model outs, kind, impl value, description)
     last = None           # (class id) of the last predicted action
     n_pred = n_learn = 0
@@ -495,6 +496,7 @@ def run_bandit(case, driver):
             last = ids[idx]
             mhist.append({"op": "predict", "actions": ids, "vals": vals_for(ids)})
             cmp.append((len(mhist) - 1, "pred", (idx, p, ids), "predict #%d" % k))
+            fidx[len(mhist) - 1] = (idx, p)
         elif name == "scores":
             vec = []
             err = None
@@ -535,9 +537,10 @@ def run_bandit(case, driver):
             if abs(sum(vec) - 1) > 1e-9:
                 B("score(%r, %r, .) = %r sums to %r, not 1 (call #%d)" % (ctx, actions, vec, sum(vec), k), "score-sum-not-one")
             v = vals_for(ids)
-            for i, sv in zip(ids, vec):
+            for j_, (i, sv) in enumerate(zip(ids, vec)):
                 mhist.append({"op": "score", "actions": ids, "a": i, "vals": v})
                 cmp.append((len(mhist) - 1, "score", sv, "score #%d of action %d" % (k, i)))
+                fidx[len(mhist) - 1] = (j_, sv)
         elif name == "score":      # a single score, possibly of an action that is not offered (malformed stream: only (A))
             aref = op["a"]
             try:
@@ -593,6 +596,14 @@ def run_bandit(case, driver):
     if driver is not None and mhist:
         ans = driver.ask({"kind": "bandit", "learner": model_learner(spec), "hist": mhist})
         model = ans["outs"]
+        if not malformed and not any(f["kind"] == "B" for f in fails):
+            # the float-faithful pmf (every operation through flDouble) equals the implementation's doubles exactly
+            pf = ans.get("pmfF", [])
+            for pos, (j_, got) in sorted(fidx.items()):
+                if pos < len(pf) and j_ < len(pf[pos]) and is_real(got) and Fraction(got) != unq(pf[pos][j_]):
+                    fails.append(F("A", "%s call %d: probability of offered action #%d implementation %r, float-faithful model %r" % (
+                        learner_src(spec), pos, j_, got, float(unq(pf[pos][j_]))), "A:%s-float-pmf" % lt))
+                    break
         if not malformed:      # (C) run-time guard of the theorems: the model's own answers are what the spec demands
             for mo in model:
                 if "err" in mo:
@@ -732,6 +743,7 @@ def run_corral(case, driver):
         fails.append(F("A", what, "A:corral-" + sig))
 
     rounds = 0
+    played = []           # (index of the learnt action, probability, reward) of every completed round, for the whole-history tower run
     a_on = driver is not None
     for k, op in enumerate(case["hist"]):
         refs = op["actions"]
@@ -869,6 +881,7 @@ def run_corral(case, driver):
             impl.append({"op": "learn", "err": type(e).__name__})
             break
         rounds += 1
+        played.append((la, lp, r))
         impl.append({"op": "learn", "ps": [float(x) if is_real(x) else repr(x) for x in c._ps]})
         bad = weights_ok(c)
         for j, x in inner:
@@ -989,7 +1002,136 @@ def run_corral(case, driver):
         tags.append("regime:extreme")
     else:
         tags.append("regime:benign")
+    if (a_on and not fails and played and len(played) <= 12 and all(op.get("score") is None for op in case["hist"][:len(played)])
+            and all(b["type"] != "corral" or all(x["type"] != "corral" for x in b["bases"]) for b in case["bases"])):
+        run_tower_check(case, driver, played, fails, tags)
     return {"fails": fails, "nontrivial": rounds >= 2, "tags": sorted(set(tags)), "impl": impl, "model": None}
+
+
+class RecV(Rec):
+    """recorder around a plain learner inside a tower that also keeps what the model's `Leaf` needs: the table of UCB indexes at each predict"""
+
+    def __init__(self, inner, spec, ctx):
+        Rec.__init__(self, inner)
+        self.spec, self.ctx = spec, ctx
+        self.mirror = UcbMirror() if spec["type"] == "ucb" else None
+        self.vals = []
+
+    def _id(self, a):
+        return self.ctx["ids"][find_idx(self.ctx["actions"], a)]
+
+    def predict(self, context, actions):
+        tab = []
+        if self.mirror is not None:
+            offered = [self._id(a) for a in actions]
+            if all(i in self.mirror.m for i in offered):
+                tab = [[i, q(self.mirror.val(i))] for i in sorted(set(offered))]
+        self.vals.append(tab)
+        return Rec.predict(self, context, actions)
+
+    def learn(self, context, action, reward, probability, **kw):
+        if self.mirror is not None:
+            self.mirror.learn(self._id(action), misguide_float(self.spec.get("mis", []), reward))
+        return Rec.learn(self, context, action, reward, probability, **kw)
+
+
+def run_tower_check(case, driver, played, fails, tags):
+    """whole history of the composition on the real code (fresh learners, every plain learner recorded) against ONE run of the model's
+    `tower 2` from the initial states: chosen actions and probabilities of every node and every plain learner in every round, weights of
+    every Corral after every learn.  The exact model and the float code can drift apart by the accuracy of the root search; once a weight
+    differs by more than 1e-9 later discrete differences are not reported (tag) - a weight difference above 2.5e-4 always is."""
+    from coba.learners import CorralLearner
+    ctx = {"actions": None, "ids": None}
+
+    def T_of(spec):
+        return math.inf if spec["T"] == "inf" else num(spec["T"])
+
+    def cinit(spec, M):
+        T = T_of(spec)
+        return {"M": M, "eta": q(num(spec["eta"])), "gamma": q(1 / T), "beta": q(1 / math.exp(1 / math.log(T))), "imp": spec["mode"] == "importance",
+                "seed": seed_json(spec["seed"] * 1.234)}
+    nodes = []            # (path, real CorralLearner, its RecV bases)
+    real_bases, model_bases = [], []
+    for j, b in enumerate(case["bases"]):
+        if b["type"] == "corral":
+            irecs = [RecV(mk_learner(x), x, ctx) for x in b["bases"]]
+            icl = CorralLearner(irecs, eta=num(b["eta"]), T=T_of(b), mode=b["mode"], seed=b["seed"])
+            real_bases.append(Rec(wrap_mis(icl, b.get("mis", []))))
+            nodes.append((j, icl, irecs))
+            model_bases.append(("node", b, irecs))
+        else:
+            r_ = RecV(mk_learner(b), b, ctx)
+            real_bases.append(r_)
+            model_bases.append(("leaf", b, r_))
+    c = CorralLearner(real_bases, eta=num(case["eta"]), T=corral_T(case), mode=case["mode"], seed=case["seed"])
+    top = wrap_mis(c, case.get("mis", []))
+    obs = []
+    mhist = []
+    for k, (la, lp, r) in enumerate(played):
+        op = case["hist"][k]
+        ids = [r_[0] for r_ in op["actions"]]
+        actions = [resolve(case, r_) for r_ in op["actions"]]
+        ctx["actions"], ctx["ids"] = actions, ids
+        cx = mk_val(op.get("ctx", ["n", None]))
+        for r_ in real_bases:
+            r_.preds.clear()
+        for _, _, irecs in nodes:
+            for r_ in irecs:
+                r_.preds.clear()
+        a, p, info = top.predict(cx, actions)
+        o = {"a": ids[find_idx(actions, a)], "p": p, "top": [ids[find_idx(actions, x)] for x in info["info"][0]],
+             "inner": {j: [ids[find_idx(actions, r_.preds[-1][1][0])] for r_ in irecs] for j, _, irecs in nodes}}
+        top.learn(cx, actions[la], r, lp, **info)
+        o["ps"] = [float(x) for x in c._ps]
+        o["inner_ps"] = {j: [float(x) for x in icl._ps] for j, icl, _ in nodes}
+        obs.append(o)
+        mhist.append({"op": "predict", "actions": ids})
+        mhist.append({"op": "learn", "a": ids[la], "r": q(r), "p": q(lp)})
+    mb = []
+    for kind, b, x in model_bases:
+        if kind == "leaf":
+            mb.append({"leaf": model_learner(b), "vals": x.vals})
+        else:
+            mb.append({"corral": cinit(b, len(b["bases"])), "mis": b.get("mis", []),
+                       "bases": [{"leaf": model_learner(y), "vals": rv.vals} for y, rv in zip(b["bases"], x)]})
+    outs = driver.ask({"kind": "tower_run", "node": {"corral": cinit(case, len(case["bases"])), "mis": case.get("mis", []), "bases": mb}, "hist": mhist})["outs"]
+    tags.append("A:tower-whole-history")
+    drift = 0.0
+
+    def A(what, sig):
+        fails.append(F("A", "whole-history tower run of %s, %s" % (corral_src(case), what), "A:tower-" + sig))
+    for k, o in enumerate(obs):
+        if 2 * k + 1 >= len(outs) or "err" in outs[2 * k] or "err" in outs[2 * k + 1]:
+            A("round %d: the model stopped or raised (%s)" % (k, json.dumps(outs[-1])[:120]), "err")
+            return
+        mp, ml = outs[2 * k], outs[2 * k + 1]
+        d = mp["dump"]
+        disc = None
+        if d["lastActs"] != o["top"]:
+            disc = "round %d: base learners chose %s, in the model %s" % (k, o["top"], d["lastActs"])
+        else:
+            for j, acts in o["inner"].items():
+                if d["bases"][j].get("lastActs") != acts:
+                    disc = "round %d: the plain learners inside nested Corral %d chose %s, in the model %s" % (k, j, acts, d["bases"][j].get("lastActs"))
+            if disc is None and mp["a"] != o["a"]:
+                disc = "round %d: Corral chose action %d, in the model %d" % (k, o["a"], mp["a"])
+            if disc is None and not close(float(unq(mp["p"])), o["p"], 1e-6):
+                disc = "round %d: reported probability %r, model %r" % (k, o["p"], float(unq(mp["p"])))
+        if disc is not None:
+            if drift > 1e-9:
+                tags.append("tower:abandoned-after-root-search-drift")
+            else:
+                A(disc, "choice")
+            return
+        dl = ml["dump"]
+        pairs = [("outer", o["ps"], dl["ps"])] + [("nested Corral %d" % j, ps_, dl["bases"][j]["ps"]) for j, ps_ in o["inner_ps"].items()]
+        for nm, got, exp in pairs:
+            exp = [float(unq(x)) for x in exp]
+            dd = max([abs(g - e) for g, e in zip(got, exp)] + [0.0 if len(got) == len(exp) else 1.0])
+            drift = max(drift, dd)
+            if dd > 2.5e-4:
+                A("round %d: %s weights %s, model %s" % (k, nm, got, exp), "weights")
+                return
 
 
 def run_witness(case, driver):
